@@ -403,6 +403,16 @@ inline std::string match_form(const xdb::Form& G, const XInst& x, const uint8_t*
       if (evex && dispsz == 1 && abits != 16) {
         int sz = m.bcst > 0 ? dM->bcstSize : dM->memSize;
         if (is_vec(m.index.rc)) sz = G.elementSize;
+        if (G.tupleType == "t1s" && m.bcst == 0) {
+          // tuple1-scalar: N is the element size (compress/expand use it with full-vector memory operands)
+          if (G.elementSize > 0) sz = G.elementSize;
+          else if (dM->memSize > 64 || dM->memSize <= 0) {
+            // element size from the mnemonic suffix is not in the DB: W selects 4/8 for d/q forms, b/w forms use 1/2
+            const std::string& nm = G.name;
+            char last = nm.empty() ? ' ' : nm.back();
+            sz = last == 'b' ? 8 : last == 'w' ? 16 : (G.w == "W1" ? 64 : 32);
+          }
+        }
         if (G.tupleType.empty() || G.tupleType == "none") N = 1;
         else if (sz > 0) N = sz / 8;
         else XT_UNDEC("disp8*N unknown for tuple " + G.tupleType);
